@@ -26,6 +26,13 @@ ASSUMPTIONS = [
 FULL = [(s, r, t) for s in ('a', 'b') for r in (':instance', ':r', 'r') for t in ('a', 'b', 'x', None)]
 T8 = [('a', ':instance', 'x'), ('b', ':instance', 'a'), ('a', ':r', 'b'), ('a', 'r', 'b'), ('b', ':r', 'a'), ('a', ':r', 'x'), ('b', ':r', None), ('a', ':r', 'a')]
 TOPS = [None, 'a', 'b', 'z']
+# larger operands: a union adds 3-5 triples at once (order of the added triples must be the operand's order)
+BIG = [
+    [('a', ':instance', 'x'), ('a', ':r', 'b'), ('b', ':instance', 'y'), ('b', ':q', 'c'), ('c', ':instance', 'z')],
+    [('c', ':instance', 'z'), ('c', ':p', 'd'), ('d', ':instance', 'w'), ('d', ':r', 'a'), ('a', ':s', 'k'), ('b', ':s', None)],
+    [('e', ':instance', 'v'), ('e', 'r', 'f'), ('f', ':instance', 'u'), ('f', ':q', 'e'), ('e', ':t', 'a')],
+    [('a', ':instance', 'x'), ('b', ':instance', 'y'), ('c', ':instance', 'z'), ('d', ':instance', 'w')],
+]
 
 
 def shards(tier, seed):
@@ -39,6 +46,7 @@ def shards(tier, seed):
     lists2 = _lists(2)
     for i in range(len(lists2)):
         out.append({'sub': 'algebra', 'L': 2, 'i': i, 'depth': d2, 'bounds': f'pairs of lists (<=2 triples over 8) x tops: histories of depth {d2}; pairs of lists (<=1 triple) x tops: depth {d2 + 1}; 3 registers, 19 operations'})
+    out.append({'sub': 'algebra', 'L': 'big', 'i': 0, 'depth': 2, 'bounds': ''})
     for i in range(len(lists1)):
         out.append({'sub': 'algebra', 'L': 1, 'i': i, 'depth': d2 + 1, 'bounds': ''})
     return out
@@ -62,6 +70,11 @@ def cases(shard):
             for rest in itertools.product(FULL, repeat=k):
                 for top in TOPS:
                     yield {'triples': [f] + list(rest), 'top': top}
+    elif shard['L'] == 'big':
+        for l1 in BIG:
+            for l2 in BIG:
+                for t1 in (None, 'b'):
+                    yield {'l1': l1, 't1': t1, 'l2': l2, 't2': None, 'depth': shard['depth']}
     else:
         ls = _lists(shard['L'])
         l1 = ls[shard['i']]
